@@ -152,6 +152,7 @@ type rejection struct {
 }
 
 type run struct {
+	lastConnErr string // the error of the last failed CreateConnection of a freshly keyed set-up
 	idx     int
 	cfg     config
 	sc      *csched.Sched
@@ -222,6 +223,10 @@ func (r *run) actorCaller(name string) *callerState {
 type harnessTrouble struct{ msg string }
 
 func trouble(f string, a ...interface{}) { panic(harnessTrouble{fmt.Sprintf(f, a...)}) }
+
+// setupRefused: the set-up of a freshly keyed schedule cannot be made because the client's session store
+// (no fault planned yet) refuses the session every time
+type setupRefused struct{ msg string }
 
 type stuck struct{ what, stack string }
 
@@ -325,7 +330,7 @@ func (r *run) start(idx, ncallers int, cfg config) {
 	r.inRecv = map[string]bool{}
 	r.sawWire = map[string]bool{}
 	r.rxSeen = map[string]bool{}
-	r.dir = filepath.Join(os.TempDir(), fmt.Sprintf("verif-c11-%d", os.Getpid()))
+	r.dir = filepath.Join(baseTmp, fmt.Sprintf("verif-c11-%d", os.Getpid()))
 	if err := os.MkdirAll(r.dir, 0o700); err != nil {
 		trouble("mkdir: %v", err)
 	}
@@ -335,7 +340,11 @@ func (r *run) start(idx, ncallers int, cfg config) {
 			break
 		}
 		if attempt > 20 {
-			trouble("key exchange failed 20 times in a row")
+			if strings.Contains(r.lastConnErr, "saving session") {
+				// the exchange itself is fine every time; it is the store that refuses the new session
+				panic(setupRefused{r.lastConnErr})
+			}
+			trouble("key exchange failed 20 times in a row (last error: %s)", r.lastConnErr)
 		}
 	}
 	for t := 0; t < ncallers; t++ {
@@ -445,6 +454,7 @@ func (r *run) connect(idx, attempt int) bool {
 	case e := <-connErr:
 		if e != nil {
 			if r.cfg.fresh {
+				r.lastConnErr = e.Error()
 				r.abandon()
 				return false
 			}
